@@ -65,6 +65,11 @@ def rand_op(rng):
 
 def gen_cases(ctx):
     i = 0
+    # workspaces large enough for update_cache to read the state points in several chunks
+    for n in ([2001] if ctx.quick else [2001, 3507, 5003]):
+        if ctx.take(i):
+            yield {"bulk": n}
+        i += 1
     L = 3 if ctx.quick else 4
     for n in range(1, L + 1):
         for combo in itertools.product(range(len(ALPHA)), repeat=n):
@@ -187,9 +192,51 @@ def compare_obs(obs, exp):
     return bad
 
 
+def run_bulk(ctx, case):
+    import signac
+
+    A = sig.new_project(ctx, "c8b")
+    path = A.path
+    want = {}
+    for k in range(case["bulk"]):
+        sp = {"i": k}
+        A.open_job(sp).init()
+        want[model.model_id(sp)] = sp
+    for step in range(2):
+        P = signac.Project(path)  # a new session: nothing cached in memory
+        ret, err = sig.exc_name(P.update_cache)
+        ctx.monitor("cache_exact_after_update")
+        content = read_cache_file(path)
+        if err is not None or content is None or set(content) != set(want) or any(
+                not model.typed_eq(content[i], want[i]) for i in want):
+            missing = sorted(set(want) - set(content or {}))
+            ctx.violation("cache-not-exact-after-update_cache", "after update_cache() the cache file is not exactly the workspace",
+                          {"jobs": len(want), "err": repr(err), "returned": ret, "missing": len(missing),
+                           "superfluous": len(set(content or {}) - set(want)), "bulk": True})
+            return
+        ret2, err2 = sig.exc_name(P.update_cache)
+        ctx.monitor("second_update_noop")
+        if err2 is not None or ret2 is not None:
+            ctx.violation("second-update_cache-not-a-noop", "an immediate second update_cache() did something",
+                          {"returned": ret2, "exc": repr(err2), "bulk": True})
+            return
+        # the workspace moves on: the next session starts from a stale file
+        for k in range(3):
+            sp = {"i": k}
+            P.open_job(sp).remove()
+            want.pop(model.model_id(sp), None)
+        for k in range(2005):
+            sp = {"i": case["bulk"] + step * 5000 + k}
+            P.open_job(sp).init()
+            want[model.model_id(sp)] = sp
+    ctx.distinct("nontrivial", ["bulk", case["bulk"]])
+
+
 def run_case(ctx, case):
     import signac
 
+    if "bulk" in case:
+        return run_bulk(ctx, case)
     A = sig.new_project(ctx, "c8")
     path = A.path
     B = signac.Project(path)  # long-lived observer
